@@ -1,6 +1,6 @@
 #!/bin/sh
 # tools/mutlab.sh try <patch.diff> <Cxx>...   : run quick checks against a seeded change WITHOUT
-#   touching /repo: a scratch copy of /verif (engine pointed at a scratch worktree of /repo's
+#   touching /repo: a scratch copy of /verif's HEAD commit (engine pointed at a scratch worktree of /repo's
 #   HEAD) lives under /tmp/mutlab and is refreshed from /verif and /repo's HEAD on every call.
 # tools/mutlab.sh clean                        : remove the scratch copies.
 # Prints "<id> exit=<code>" per check (1 = the check reports a violation).
@@ -21,8 +21,14 @@ if [ ! -d "$LAB/repo" ]; then
 fi
 git -C "$LAB/repo" checkout -q --detach "$(git -C /repo rev-parse HEAD)" || exit 2
 git -C "$LAB/repo" checkout -q -- . && git -C "$LAB/repo" clean -fdq -e target
-rsync -a --delete --exclude engine/target --exclude engine/fuzz/target --exclude work --exclude .git \
-  --exclude evidence "$VER/" "$LAB/verif/"
+# the committed state of /verif (so that edits in progress there do not leak into the trial)
+rm -rf "$LAB/snap"; mkdir -p "$LAB/snap" "$LAB/verif"
+git -C "$VER" archive HEAD | tar -x -C "$LAB/snap"
+# by content, without copying times: unchanged files keep their time (no needless rebuild),
+# changed files get the current time
+rsync -rlpD --checksum --delete --exclude engine/target --exclude engine/fuzz/target --exclude work \
+  --exclude evidence "$LAB/snap/" "$LAB/verif/"
+rm -rf "$LAB/snap"
 mkdir -p "$LAB/verif/work" "$LAB/verif/evidence"
 sed -i "s#\"/repo/#\"$LAB/repo/#" "$LAB/verif/engine/gtv/Cargo.toml" "$LAB/verif/engine/ctbatch/Cargo.toml"
 git -C "$LAB/repo" apply "$PATCH" || { echo "patch does not apply" >&2; exit 2; }
